@@ -8,6 +8,9 @@ CONSTANTS
   Tols = {10}
   Kinds = {"float", "text"}
   Assocs = {"V", "C"}
+  Owns = {FALSE}
+  PGs = {0}
+  AllowCopy = FALSE
   Deviations = {"SortKeepsVertices"}
 INVARIANT VertexAtDepth
 CHECK_DEADLOCK FALSE
